@@ -59,6 +59,13 @@ pub fn core_spaces(tier: &str, seed: i64, heavy: bool) -> Vec<Space> {
         v.push(Space::all(Universe::UP));
         v.push(Space::all(Universe::UEA));
         v.push(Space::all(Universe::UCE));
+        if heavy {
+            v.push(Space::slice(Universe::UPIN, 4, off));
+            v.push(Space::slice(Universe::UDBL, 4, off));
+        } else {
+            v.push(Space::all(Universe::UPIN));
+            v.push(Space::all(Universe::UDBL));
+        }
         v.push(Space::all(Universe::UCK { extras: 0 }));
         if heavy {
             v.push(Space::slice(Universe::UCK { extras: 1 }, 4, off));
@@ -96,6 +103,8 @@ pub fn core_spaces(tier: &str, seed: i64, heavy: bool) -> Vec<Space> {
         v.push(Space::all(Universe::UP));
         v.push(Space::all(Universe::UEA));
         v.push(Space::all(Universe::UCE));
+        v.push(Space::all(Universe::UPIN));
+        v.push(Space::all(Universe::UDBL));
         v.push(Space::all(Universe::UCK { extras: 0 }));
         v.push(Space::all(Universe::UCK { extras: 1 }));
         for (a, b) in [(code(P, true), code(P, false)), (code(Q, true), code(R, false)), (code(R, true), code(B, false)), (code(P, true), code(N, false))] {
